@@ -1,6 +1,7 @@
 import Vegeta.Go.Proto
 import Vegeta.Model.HTTPTargets
 import Vegeta.Model.JSONTargets
+import Vegeta.Model.AttackTargets
 /-! Driver operations of property C14 (ops are named `c14.<name>`). -/
 namespace Vegeta.Driver.C14
 open Vegeta.Go Vegeta.Go.Proto
@@ -155,6 +156,34 @@ def handle (op : String) (args : List String) : Option String :=
     | (.ok ts, _) => pure ("ok " ++ toString ts.length ++ ts.foldl (fun s t => s ++ " ; " ++ showRec t) "")
     | (.error e, _) => pure ("err " ++ toString e)
     | (.panic, _) => pure "panic"
+  | "c14.select.http" => do
+    -- the attack command's selection over an http file: lazy flag, number of draws → the draws
+    let ((c, lz, m), _) ← (do let c ← pHTTPCase; let l ← bool; let m ← nat; pure (c, l, m)).run args
+    let st0 : HTTPTargets.St := { ps := HTTPTargets.PS.init c.src, heap := c.heap }
+    match AttackTargets.selectTargeter (HTTPTargets.call c.cfg) (st0.ps.rest.length + 3) lz st0 with
+    | .error e => pure ("sel-err " ++ toString e)
+    | .panic => pure "panic"
+    | .ok p =>
+      let outs := AttackTargets.draws (HTTPTargets.call c.cfg) m p
+      -- heap in which the drawn targets are looked at: after the eager read / after the lazy draws
+      let heap := match p with
+        | .static _ _ => (HTTPTargets.readAll c.cfg st0).2.heap
+        | .stream _ => (HTTPTargets.calls c.cfg m st0).2.heap
+      pure ("ok" ++ outs.foldl (fun s o => s ++ " | " ++ (match o with
+        | .ok t => "ok " ++ showView (HTTPTargets.viewTarget heap t)
+        | .error e => "err " ++ toString e
+        | .panic => "panic")) "")
+  | "c14.select.json" => do
+    let ((c, lz, m), _) ← (do let c ← pJSONCase; let l ← bool; let m ← nat; pure (c, l, m)).run args
+    match AttackTargets.selectTargeter (JSONTargets.call c.cfg) (c.src.length + 2) lz c.src with
+    | .error e => pure ("sel-err " ++ toString e)
+    | .panic => pure "panic"
+    | .ok p =>
+      let outs := AttackTargets.draws (JSONTargets.call c.cfg) m p
+      pure ("ok" ++ outs.foldl (fun s o => s ++ " | " ++ (match o with
+        | .ok t => "ok " ++ showRec t
+        | .error e => "err " ++ toString e
+        | .panic => "panic")) "")
   | "c14.jsonenc" => do
     let (t, _) ← (pETarget).run args
     pure ("ok " ++ hexEncode (JSONTargets.encodeTarget t))
